@@ -59,6 +59,32 @@ def check_case(case):
         if all(x is not y for y in l.vertices):
             l.add_vertex(x)
     attrs_before = [sorted(vars(v)) for v in vs]
+    if case["opt"] & 512 and u.vertices:
+        # an export that fails part-way (the label function raises for one member): nothing of it may influence the
+        # exports that follow, of this or of another universe
+        from edgegraph.output import pyvis as _pyvis
+
+        members0 = u.vertices
+        outsiders = [v for v in vs if all(v is not m for m in members0)]
+        if outsiders and case["extra"] & 1:
+            # ... of a LARGER universe: the vertex the label function refuses is not a member of `u` (but may be linked
+            # to its members)
+            victim = outsiders[0]
+            failing_uni = Universe(vertices=[victim] + members0)
+        else:
+            victim = members0[case["extra"] % len(members0)]
+            failing_uni = u
+
+        def failing(v):
+            if v is victim:
+                raise KeyError("no label for this vertex")
+            return _TITLE(v)
+
+        try:
+            _pyvis.make_pyvis_net(failing_uni, rvfunc=failing)
+        except KeyError:
+            pass
+        require([sorted(vars(v)) for v in vs] == attrs_before, "export-left-attribute", "a vertex gained or lost an attribute during an export whose rvfunc raised")
     info = _check_export(case, vs, ls, u)
     # a second export, of another universe over the same vertices (the complement plus the first member, in
     # reverse order): nothing of the first export may influence it, and no vertex may have gained an attribute
